@@ -15,6 +15,7 @@ import (
 	"encoding/pem"
 	"fmt"
 	"math/big"
+	"os"
 	"sync"
 	"time"
 
@@ -42,6 +43,7 @@ type Material struct {
 	EvilCA                                   *x509.Certificate // E2 self-signed CA
 	EvilLeaf                                 *x509.Certificate // E issued by E2
 	SignCertCrit, EvilSelfCrit, EvilLeafCrit *x509.Certificate // with an unknown critical extension
+	WebCA, WebLeaf                           *x509.Certificate // a CA of the system trust store and a certificate it issued to E
 	SignNB, SignNA                           time.Time
 	Quote                                    *tpb.QuoteV4
 	QuoteBytes                               []byte // serialized tpm attestation carrying the quote
@@ -160,6 +162,31 @@ func GetMaterial() (*Material, error) {
 		if m.EvilLeafCrit, err = mkCert(crit(leafTpl()), m.EvilCA, &m.E.PublicKey, m.E2); err != nil {
 			matErr = err
 			return
+		}
+		// a "public web CA" that the process's system trust store contains (SSL_CERT_FILE is pointed at
+		// it before crypto/x509 first loads the system roots), and a server certificate it issued to E
+		wk, werr := rsa.GenerateKey(rand.Reader, 2048)
+		if werr != nil {
+			matErr = werr
+			return
+		}
+		wt := rootTpl("Public Web CA")
+		if m.WebCA, err = mkCert(wt, wt, &wk.PublicKey, wk); err != nil {
+			matErr = err
+			return
+		}
+		wl := leafTpl()
+		wl.ExtKeyUsage = []x509.ExtKeyUsage{x509.ExtKeyUsageServerAuth}
+		wl.DNSNames = []string{"forger.example"}
+		if m.WebLeaf, err = mkCert(wl, m.WebCA, &m.E.PublicKey, wk); err != nil {
+			matErr = err
+			return
+		}
+		if f, ferr := os.CreateTemp("", "vk-webca-*.pem"); ferr == nil {
+			f.Write(pemOf(m.WebCA))
+			f.Close()
+			os.Setenv("SSL_CERT_FILE", f.Name())
+			os.Setenv("SSL_CERT_DIR", "/nonexistent")
 		}
 		// TDX quote from go-tdx-guest's test data
 		q, err := tabi.QuoteToProto(testdata.RawQuote)
